@@ -14,7 +14,10 @@ RULE = ('wrapped real encoder (harness #includes src/opus_encoder.c and records 
         'a sweep of out_data_bytes x bit-rate x duration x VBR/CVBR/CBR cells; long frames x high rates x consecutive '
         'out_data_bytes; multi-frame VBR packets with sub-frames >= 253 bytes and max_data_bytes swept +-8 around the size of a '
         'probe packet (nearly full budget); multistream/projection sessions and, for 7 layouts, max_data_bytes 1..600 '
-        'exhaustively at high rates; constrained-VBR runs of 8 s after setting histories (speech phase / forced hybrid or SILK '
+        'exhaustively at high rates (CBR also with OPUS_AUTO); the multistream rate allocation on a grid layouts (all '
+        '(streams, coupled) up to 5 / 24 streams plus large ones up to 255, with and without LFE, surround and ambisonics) x 5 rates x 9 '
+        'frame sizes x ~37 bit-rate settings (AUTO, MAX, ctl bounds, thresholds where the offsets are just covered +-1, log-spaced), on '
+        'encoders from every create function, and on explicit mappings with up to 255 input channels; constrained-VBR runs of 8 s after setting histories (speech phase / forced hybrid or SILK '
         'frames / random ctl) incl. a fixed share of hybrid-history -> CELT-only music runs; the skeleton '
         'replays each recorded call from pre-state + oracles and must reproduce return value, packet structure, post-state and '
         'every inner call with its arguments. A case is distinct by (op, outcome kind).')
@@ -23,8 +26,9 @@ NOT_COVERED = ['convergence of the constrained-VBR control loop (signal dependen
                'interiors of silk_Encode / celt_encode_with_ec / the range coder: oracles under the contracts of '
                'OpusModel/EncSkel/Frame.lean (monitored on every recorded call); that they write only inside the buffer handed to '
                'them is checked by ASan / guard bytes on explored inputs only',
-               'multistream: rate_allocation (which bit-rate each stream gets) and the surround masking analysis are not modelled; the '
-               'per-stream budget split is (msCurrMax / msMaxBytes, theorem ms_encode_ret_le_out, tie op mscurr2)',
+               'multistream: the surround masking analysis (float) and the per-stream bandwidth / force-mode ctls of '
+               'opus_multistream_encode_native:899-922 are not modelled; the rate allocation (MsRate.lean, tie ops msrate / msuser / '
+               'msctl) and the per-stream budget split (msCurrMax / msMaxBytesAlloc, tie op mscurr3) are',
                'DRED / QEXT / fixed-point builds are not compiled in this configuration']
 ASSUMPTIONS = ['the data pointer addresses out_data_bytes writable bytes and pcm holds frame_size*channels samples',
                'settings reach the encoder only through opus_encoder_ctl (stOk: the C11 ctl invariant), frame sizes through '
@@ -38,13 +42,16 @@ TRUSTED = ['oracle contracts of OpusModel/EncSkel/Frame.lean (silk_Encode return
 REQUIRED_THEOREMS = ['OpusProps.C05.' + t for t in (
     'cbrBytes_spec', 'ret_le_out', 'cbr_size_exact', 'bitrate_max_fills', 'too_small_clean', 'never_internal_error',
     'stOk_preserved', 'stOk_along_histories', 'encode_keeps_encInv', 'ms_encode_ret_le_out', 'cvbr_reservoir_bounded',
-    'cvbr_average_bound')]
+    'cvbr_average_bound', 'ms_rate_floor', 'ms_rate_sum', 'ms_rate_no_overflow', 'ms_rate_no_overflow_standard',
+    'ms_rate_overflow_generic', 'ms_encode_ret_le_out_alloc')]
 UNPROVED = ['range lemmas "no 32-bit overflow" for the budget arithmetic (model uses unbounded Int; products stay below 2^31 for '
             'Fs <= 48000, bit-rate <= 1.5e6, out_data_bytes clamped to 1276 — covered by UBSan on explored inputs only)',
             'that the float-driven CVBR target makes the average APPROACH the requested rate (only the upper bound '
             'cvbr_average_bound is a theorem; CELT-only frames; hybrid frames run unconstrained by design)',
-            'ms_encode_ret_le_out for CBR with OPUS_AUTO assumes the allocated rate is worth smallest_packet bytes '
-            '(rate_allocation is float-free but not modelled)']
+            'no 32-bit overflow in the multistream rate allocation for layouts with more than 13 input channels per coded channel '
+            '(opus_multistream_encoder_create with muted / shared input channels): FALSE there, theorem ms_rate_overflow_generic and '
+            'search suite msrate-search-generic exhibit channel_rate*coupled_ratio overflowing at opus_multistream_encoder.c:729 '
+            '(finding reported; ms_rate_no_overflow covers every other layout)']
 CAL = json.load(open(os.path.join(common.VERIF, 'tools', 'calibration_C05.json')))
 SAN_EXTRA = ['-fno-sanitize=float-cast-overflow']   # DESIGN §9 O1: (int)floor(NaN) at opus_encoder.c:1226 is benign
 
@@ -75,6 +82,9 @@ def ties(ctx):
     out.append(common.run_tie('encskel-ms', [hs, 'ms', str(s), '120' if q else '1500']))
     out.append(common.run_tie('encskel-mssweep', [_h(ctx, 'plain'), 'mssweep', str(s), '0' if q else '1']))
     out.append(common.run_tie('encskel-cvbr', [_h(ctx, 'san', 'c05_cvbr'), 'run', str(s), '60' if q else '1200']))
+    hm = _h(ctx, 'san', 'c05_msrate')
+    out.append(common.run_tie('encskel-msrate-grid', [hm, 'grid', '0' if q else '1']))
+    out.append(common.run_tie('encskel-msrate-api', [hm, 'api', str(s), '60' if q else '600']))
     out.append(common.run_tie('encskel-silkrate', [hs, 'silkrate']))
     out.append(common.run_tie('encskel-gentoc', [hs, 'gentoc']))
     if not q:
@@ -161,9 +171,123 @@ def check_case(inp, impl):
     return None
 
 
+def _tdiv(a, b):
+    """C integer division (truncation toward zero)."""
+    q = abs(a) // abs(b)
+    return q if (a >= 0) == (b > 0) else -q
+
+
+def ms_alloc(fs, fsz, n, c, lfe, amb, br):
+    """rate_allocation of src/opus_multistream_encoder.c:668-798 in exact integer arithmetic (independent of the Lean
+    model): (rate_sum, per-stream rates)."""
+    if amb:
+        if br == -1000:
+            total = (c + n) * (fs + 60 * fs // fsz) + n * 15000
+        elif br == -1:
+            total = (n + c) * 320000
+        else:
+            total = br
+        rates = [_tdiv(total, n)] * n
+    else:
+        nlfe = 1 if lfe != -1 else 0
+        unc = n - c - nlfe
+        nn = 2 * c + unc
+        co = 40 * max(50, fs // fsz)
+        if br == -1000:
+            b = nn * (co + fs + 10000) + 8000 * nlfe
+        elif br == -1:
+            b = nn * 300000 + nlfe * 128000
+        else:
+            b = br
+        lo = min(_tdiv(b, 20), 3000) + 15 * max(50, fs // fsz)
+        so = max(0, min(20000, _tdiv(_tdiv(b - co * nn - lo * nlfe, nn), 2)))
+        total = (unc << 8) + 512 * c + nlfe * 32
+        cr = _tdiv(256 * (b - lo * nlfe - so * (c + unc) - co * nn), total)
+        rates = []
+        for i in range(n):
+            if i < c:
+                rates.append(2 * co + max(0, so + ((cr * 512) >> 8)))
+            elif i != lfe:
+                rates.append(co + max(0, so + cr))
+            else:
+                rates.append(max(0, lo + ((cr * 32) >> 8)))
+    rates = [max(r, 500) for r in rates]
+    return sum(rates), rates
+
+
+def _scan_msrate(inp, impl, suite, cmd, wit, stats):
+    t = inp.split(' ')
+    try:
+        vals = [int(x) for x in t[2:]]
+    except ValueError:
+        return
+    if impl in ('SANITIZER', 'ABORT', 'SIGSEGV'):
+        if len(wit) < 10:
+            wit.append({'suite': suite, 'input': inp, 'command': cmd, 'expected': 'rate_allocation returns',
+                        'observed': impl, 'why': 'the multistream rate allocation trapped (undefined behaviour: 32-bit overflow)'})
+        return
+    d = _kv(impl)
+    if t[1] == 'msrate' and len(vals) == 7:
+        stats['msrate'] = stats.get('msrate', 0) + 1
+        esum, erates = ms_alloc(*vals)
+        try:
+            got = [int(x) for x in d['r'].split(',')]
+            gsum = int(d['sum'])
+        except (KeyError, ValueError):
+            return
+        if (gsum, got) != (esum, erates) and len(wit) < 10:
+            k = [i for i in range(len(got)) if i >= len(erates) or got[i] != erates[i]]
+            wit.append({'suite': suite, 'input': inp, 'command': cmd,
+                        'expected': 'sum=%d r=%s' % (esum, ','.join(map(str, erates[:16]))),
+                        'observed': 'sum=%d r=%s' % (gsum, ','.join(map(str, got[:16]))),
+                        'why': 'rate_allocation differs from the exact integer evaluation of its own formulas (stream %s): a 32-bit '
+                               'intermediate overflowed (channel_rate*coupled_ratio / channel_rate*lfe_ratio, '
+                               'opus_multistream_encoder.c:729/:733)' % (k[:1] or ['sum'])[0]})
+    elif t[1] == 'msuser' and len(vals) == 8:
+        stats['msuser'] = stats.get('msuser', 0) + 1
+        _, erates = ms_alloc(*vals[:7])
+        i = vals[7]
+        exp = min(300000 * (2 if i < vals[3] else 1), max(500, erates[i]))
+        try:
+            got = int(d['v'])
+        except (KeyError, ValueError):
+            return
+        if got != exp and len(wit) < 10:
+            wit.append({'suite': suite, 'input': inp, 'command': cmd, 'expected': 'stream %d encodes at %d b/s' % (i, exp),
+                        'observed': 'stream %d encodes at %d b/s' % (i, got),
+                        'why': 'the bit-rate a stream encoder was given differs from the exact evaluation of rate_allocation '
+                               '(32-bit overflow in opus_multistream_encoder.c:729/:733)'})
+
+
 def _scan(out, suite, cmd, wit, stats):
     cur = None
+    mcur = None
     for line in out.split('\n'):
+        if line.startswith('I encskel msrate ') or line.startswith('I encskel msuser '):
+            mcur = line[2:]
+            continue
+        if mcur is not None and line.startswith('O '):
+            _scan_msrate(mcur, line[2:], suite, cmd, wit, stats)
+            mcur = None
+            continue
+        if line.startswith('# LAYOUT '):
+            d = _kv(line)
+            try:
+                nch, n, c, lfe, mt, fam, ch = (int(d[k]) for k in ('nch', 'streams', 'coupled', 'lfe', 'mt', 'fam', 'ch'))
+            except (KeyError, ValueError):
+                continue
+            stats['layout'] = stats.get('layout', 0) + 1
+            ok = 1 <= n and 0 <= c <= n and n + c <= nch <= 255 and (lfe == -1 or (c <= lfe == n - 1 and n >= 2 and mt == 1)) and \
+                (fam < 0 or nch == n + c) and (mt == 2) == (fam == 2)
+            if not ok and len(wit) < 10:
+                wit.append({'suite': suite, 'input': line[2:], 'command': cmd, 'expected': 'layout invariant MsLayoutOk',
+                            'observed': line[2:], 'why': 'a create function produced a layout outside the invariant the rate-allocation theorems assume'})
+            continue
+        if line.startswith('# MSRATE-'):
+            if len(wit) < 10:
+                wit.append({'suite': suite, 'input': line[2:], 'command': cmd, 'expected': 'create / encode succeed', 'observed': line[2:],
+                            'why': 'multistream create or encode failed on a valid configuration'})
+            continue
         if line.startswith('I encskel native '):
             cur = line[2:]
         elif line.startswith('O ') and cur is not None:
@@ -194,8 +318,13 @@ def _scan(out, suite, cmd, wit, stats):
                     why, exp = 'multistream: buffer below the minimum not refused with OPUS_BUFFER_TOO_SMALL (ret=%d)' % ret, 'OPUS_BUFFER_TOO_SMALL'
             elif not (1 <= ret <= outb):
                 why, exp = 'multistream: return value %d outside 1..max_data_bytes=%d' % (ret, outb), '1 <= ret <= %d' % outb
-            elif vbr == 0 and br != -1000:
-                exp_n = outb if br == -1 else min(outb, max(small, 3 * br // (3 * 8 * fs // afs)))
+            elif vbr == 0:
+                if br == -1000:   # the clamp of :882 with the rate_allocation sum (exact re-evaluation, ms_alloc)
+                    fam, coupled = int(d.get('fam', -1)), int(d.get('coupled', 0))
+                    rs, _ = ms_alloc(fs, afs, streams, coupled, streams - 1 if fam == 1 and nch >= 6 else -1, fam == 2, br)
+                    exp_n = min(outb, 3 * rs // (3 * 8 * fs // afs))
+                else:
+                    exp_n = outb if br == -1 else min(outb, max(small, 3 * br // (3 * 8 * fs // afs)))
                 if ret != exp_n:
                     why, exp = 'multistream CBR packet has %d bytes, expected %d' % (ret, exp_n), 'CBR packet of %d bytes' % exp_n
             if why and len(wit) < 10:
@@ -218,7 +347,15 @@ def _scan(out, suite, cmd, wit, stats):
 
 def classify(ctx, tie, mm):
     """A model/implementation disagreement is a witness iff the implementation's own answer violates C05."""
-    bad = check_case(mm.get('input', ''), mm.get('impl', ''))
+    inp = mm.get('input', '')
+    if inp.startswith('encskel msrate ') or inp.startswith('encskel msuser '):
+        wit = []
+        _scan_msrate(inp, mm.get('impl', ''), tie.name, '', wit, {})
+        if not wit:
+            return None
+        wit[0]['model'] = mm.get('model', '')[:400]
+        return wit[0]
+    bad = check_case(inp, mm.get('impl', ''))
     if not bad:
         return None
     return {'suite': tie.name, 'input': mm.get('input', ''), 'expected': bad[0], 'observed': mm.get('impl', '')[:400],
@@ -234,7 +371,9 @@ def _runs(ctx):
             ('encsize-search-fill', [hp, 'fill', str(s + 1000), '0' if q else '1']),
             ('encsize-search-ms', [hp, 'ms', str(s + 1000), '300' if q else '4000']),
             ('encsize-search-mssweep', [hp, 'mssweep', str(s + 1000), '0' if q else '1']),
-            ('encsize-search-cvbr', [hp, 'cvbr', str(s), '40' if q else '400', str(CAL['seconds'])])]
+            ('encsize-search-cvbr', [hp, 'cvbr', str(s), '40' if q else '400', str(CAL['seconds'])]),
+            ('msrate-search-api', [_h(ctx, 'plain', 'c05_msrate'), 'api', str(s + 1000), '80' if q else '800']),
+            ('msrate-search-generic', [_h(ctx, 'plain', 'c05_msrate'), 'generic', str(s + 1000), '40' if q else '400'])]
 
 
 def search(ctx):
@@ -243,18 +382,22 @@ def search(ctx):
     wit, stats = [], {'cases': 0}
     for suite, cmd in _runs(ctx):
         rc, out = common.sh(cmd, timeout=3000)
-        _scan(out, suite, ' '.join(['c05_encsize'] + cmd[1:]), wit, stats)
+        hname = 'c05_msrate' if suite.startswith('msrate-') else 'c05_encsize'
+        _scan(out, suite, ' '.join([hname] + cmd[1:]), wit, stats)
         if rc not in (0, 7) and not wit:
-            wit.append({'suite': suite, 'input': ' '.join(cmd[1:]), 'command': ' '.join(['c05_encsize'] + cmd[1:]),
+            wit.append({'suite': suite, 'input': ' '.join(cmd[1:]), 'command': ' '.join([hname] + cmd[1:]),
                         'expected': 'harness completes', 'observed': 'exit code %d: %s' % (rc, out[-300:]),
                         'why': 'the encoder trapped (abort / crash) during the search'})
-    n = stats['cases'] + stats.get('ms', 0) + stats.get('cvbr', 0)
+    n = stats['cases'] + stats.get('ms', 0) + stats.get('cvbr', 0) + stats.get('msrate', 0) + stats.get('msuser', 0)
     return {'cases': n, 'distinct': len(stats), 'distribution': stats,
             'oracle': 'on the real encoder: BAD_ARG / BUFFER_TOO_SMALL exactly for invalid arguments and 100 ms in 1 byte; '
                       '1 <= ret <= out_data_bytes; 64 guard bytes after data[out_data_bytes] intact; packet parses with '
                       'count x samples_per_frame = frame_size; CBR size == max(1, min(floor(b*T/8+1/2), min(out,1276))) over Q '
                       '(DTX packets and BITRATE_MAX multi-frame packets, which fill out_data_bytes, excepted); multistream: '
-                      'BUFFER_TOO_SMALL below 2*streams-1 (+streams at 100 ms), ret <= max_data_bytes, CBR total exact; '
+                      'BUFFER_TOO_SMALL below 2*streams-1 (+streams at 100 ms), ret <= max_data_bytes, CBR total exact (incl. OPUS_AUTO '
+                      'through the allocated rate sum); rate_allocation and the bit-rate each stream encoder ends up with == exact '
+                      'integer evaluation of the allocation formulas (no 32-bit wrap), on layouts from every create function and on '
+                      'explicit mappings with up to 255 input channels; layouts satisfy MsLayoutOk; '
                       'constrained VBR: 8 s average <= target*(1+eps(band)) + one ToC byte per packet, eps from '
                       'tools/calibration_C05.json',
             'samples': ['%s -> %s' % (' '.join(c[1:]), stats) for _, c in _runs(ctx)][:2],
@@ -265,12 +408,12 @@ def replay(ctx, obj):
     """Re-run the harness command that produced the witness and re-evaluate the predicate on the same input line."""
     cmd = obj.get('command') or ''
     toks = cmd.split(' ')
-    if len(toks) < 2 or toks[0] != 'c05_encsize':
+    if len(toks) < 2 or toks[0] not in ('c05_encsize', 'c05_msrate'):
         print('replay: no harness command recorded; re-running the whole check')
         import sys
         os.execv(sys.executable, [sys.executable, os.path.join(common.VERIF, 'tools', 'check.py'), ctx.prop, '--tier', obj.get('tier', 'quick')])
     variant = 'san' if obj.get('suite', '').startswith('encskel-') else 'plain'
-    h = _h(ctx, variant)
+    h = _h(ctx, variant, toks[0])
     rc, out = common.sh([h] + toks[1:], timeout=3000, env={'ASAN_OPTIONS': 'detect_leaks=0:abort_on_error=0'})
     wit, stats = [], {'cases': 0}
     _scan(out, obj.get('suite', 'replay'), cmd, wit, stats)
@@ -292,10 +435,12 @@ LEVEL_TEXT = ('proof of the size skeleton, partial for the property: Lean model 
               'out_data_bytes, exact CBR size on every path, BITRATE_MAX fills, too-small buffers give BUFFER_TOO_SMALL or a '
               'ToC-only packet, no INTERNAL_ERROR / assertion site reachable; stOk (the ctl/decision-chain invariant the theorems assume) is preserved by '
               'every call and holds along every history from opus_encoder_create through any ctl requests (bridge to C11 EncInv '
-              'by an explicit refinement map); multistream: every stream gets a legal budget and ret <= max_data_bytes; CVBR '
+              'by an explicit refinement map); multistream: every stream gets a legal budget and ret <= max_data_bytes, the integer rate '
+              'allocation (per-stream floors, what the sum is, no 32-bit overflow for layouts with <= 13 input channels per coded '
+              'channel, OPUS_AUTO always worth smallest_packet); CVBR '
               'reservoir in [0, vbr_rate] and 64*sum(bytes) <= (N+1)*vbr_rate; tied to the code by replaying every recorded real '
               'call (return value, packet structure, post-state, inner calls) under ASan/UBSan; CVBR average only searched')
 LEVEL_NOTE = ('trusted: Lean kernel; oracle contracts on silk_Encode / celt_encode_with_ec / ec_tell (monitored at run time, not '
               'proved); repacketiser contract (C07 proves the repacketiser itself); the harness that wraps inner calls by macro '
-              'redirection; unbounded Int for C int. Not proved: CVBR convergence towards the target (only the upper bound), multistream rate allocation.')
+              'redirection; unbounded Int for C int. Not proved: CVBR convergence towards the target (only the upper bound).')
 TECHNIQUE = 'Lean 4 theorems over an executable skeleton with contract-bound oracles + differential replay of recorded real calls'
